@@ -258,6 +258,33 @@ NOTE_REPL = {
 }
 for _k, _v in EXTRA_TEXT.items():
     CLAIMS[_k]["text"] += _v
+EXTRA_TEXT4 = {
+    "C02": " Fourth session: stream S02-multipart (allow_fix with multi-part lines that take part in node defects only once merged: the junction / V-node sets must come from the fixed traces).",
+    "C03": " Fourth session: S03 gives Z values to some or all traces of 16% of the maps (the shared z-coordinate gate in front of snapping and noding).",
+    "C05": " Fourth session: C05_generated_tables_from_output_branches (in the regenerated branches_and_nodes the node table and the branch labels are computed from exactly the returned branches, after the 1.01 x snap filter; item BranchesAndNodes is tied to C05) and stream S05-extraction (handshake and end-node incidence on the tables branches_and_nodes RETURNS, maps with sliver branches).",
+    "C07": " Fourth session: stream S07-network runs the same exact judge on Network(truncate_traces=True) -- z-coordinate removal, defensive copies, crop with the column data, renumbering -- for frames with Z values and every index kind, twice on the same caller's frame.",
+    "C08": " Fourth session: stream S08-network (end to end, HISTORIES): 2-3 Network(...) calls on one caller's frame (overview without truncation / target area, four orders); per Network the boundary-intersection counts, weights 1/2/0, plain and weighted lengths, E = sum of end counts and Network.parameters = Spec.NetIn.param (Lean) on that network's own counts, lengths and area.",
+    "C10": " Fourth session: S10-stacking also plants traces at 0.95 x the stacking buffer (the outer edge of the window, where the candidate search must still reach).",
+    "C11": " Fourth session: C11_intersection_filter_order_free (the regenerated determine_valid_intersection_points_no_vnode returns the same points for every permutation of the candidate rows and every digitising direction; items IntersectionFilter / GeneralNodes tied to C11); S11-validation-orbits has gadgets of one fracture digitised in three / four pieces (V-nodes at both ends of a trace).",
+    "C12": " Fourth session: S12-relations assigns the traces to the sets INDEPENDENTLY of the code (closed ranges incl. wrap-around; azimuths exactly on range ends) instead of reading the assignment from the Network.",
+    "C13": " Fourth session: S13's pool has a tenth frame (multi-part lines that take part in snap / stacking / crosscut defects of OTHER rows once merged: candidate selection must follow the fixed frame) and, for every frame, the history validate -> validate the output again -> re-run the first object. Item ErrorColumn (the two stale column names dropped at the head of run_validation) is tied to C13 as well.",
+    "C14": " Fourth session: stream S14-adjacent-areas (the box target area given as 2-4 adjacent area rows sharing edges: all four routes vs the exact arrangement of the map in the union; a trace crossing an inner edge stays one piece).",
+    "C15": " Fourth session: stream S15-network (HISTORIES): 2-3 Networks with different azimuth set definitions (and areas) on one caller's frame; trace_azimuth_array, trace_azimuth_set_array, set counts and per-set length arrays vs Spec.azimuth / Spec.detSet on each network's own traces.",
+    "C18": " Fourth session: stream S18-touch (integer-lattice maps, cell width 2, EVERY cell's P21 vs the exact clip of the network's traces to that cell's sample circle; one trace is planted to touch a circle's easternmost vertex in a point and run through the circle).",
+    "C19": " Fourth session: item ErrorColumn regenerates ERROR_COLUMN, ERROR_COLUMN_TRUNC and the stale-column loop of run_validation; C19_error_column_shapefile_name: the truncated name is the first 10 characters of the column name for every name, and both names are dropped before a re-validation. S19-tracevalidate validates every Shapefile output (and half of the others) AGAIN with the other validator selection: no extra column, error text = library result.",
+    "C20": " Fourth session: gather_subsample_descriptions is regenerated; C20_generated_gather (exactly the results that are not None and are dicts survive, in order) and stream S20-gather (failed samples anywhere in the result list: real function vs compiled regenerated function vs the statement, then grouping).",
+}
+for _k, _v in EXTRA_TEXT4.items():
+    CLAIMS[_k]["text"] += _v
+NOTE_ADD4 = {
+    "C07": " That Network crops a COPY (caller's frame untouched, z-removal keeps rows aligned under any index) is state / aliasing, not a pure function: carried by S07-network only.",
+    "C08": " partial: that a Network's values are computed from ITS OWN traces and not from columns left behind by an earlier Network on the same frame (aliasing) has no counterpart in the pure model; carried by the history stream S08-network only.",
+    "C15": " partial: independence of a Network's set assignment from earlier Networks on the same caller's frame (aliasing) is carried by the history stream S15-network only.",
+    "C13": " Memoisation keyed by an object that outlives the data it was computed from (spatial index vs fixed frame) is outside the model: carried by the re-validation histories of S13.",
+    "C19": " That the Shapefile driver keeps exactly 10 characters of a field name is observed by S19 (IoLaw), not proved.",
+}
+for _k, _v in NOTE_ADD4.items():
+    CLAIMS[_k]["note"] += _v
 for _k, (_a, _b) in NOTE_REPL.items():
     assert _a in CLAIMS[_k]["note"], _k
     CLAIMS[_k]["note"] = CLAIMS[_k]["note"].replace(_a, _b)
